@@ -428,7 +428,7 @@ def groups(ctx):
       ok_key = False
       why.append(f'group key `{_short(k)}` is not the axis dimension (the `dim` entry when present, else the rows of `eigvecs`)')
     keys_seen.add(form)
-  ctx.need('C17.R4', n_paths, 4, 'paths through create_groups (dim entry present/absent x group new/existing)')
+  ctx.need('C17.R4', n_paths, 2, 'paths through create_groups (dim entry present / absent)')
   ctx.ob('C17.R4', fg.short, 'groups keyed by the axis dimension', ok_key and keys_seen == {'dim', 'eigvecs.shape[0]'},
          '; '.join(dict.fromkeys(w for w in why if 'key' in w)) or f'key forms seen: {sorted(str(x) for x in keys_seen)}', ctx.loc(fg, node),
          sample="key = node['dim'] | node['eigvecs'].shape[0]")
